@@ -280,3 +280,24 @@ let () = register "qrcap" (fun args ->
     let l = (match level with "0" -> LvL | "1" -> LvM | "2" -> LvQ | _ -> LvH) in
     string_of_int (iz (spec_capacity m l (z_of_string version)))
   | _ -> "BAD")
+
+(* ---- mask selection (informational: the property leaves the mask free) ---- *)
+(* qrauto <level> <mode> <content hex> : the model of Encode including render's penalty-based
+   choice; same line format as the implementation's `qr` output *)
+let () = register "qrauto" (fun args ->
+  match args with
+  | [level; mode; content] ->
+    show_outcome show_barcode (qr_encode_auto (zlist_of_hex content) (z_of_string level) (z_of_string mode))
+  | _ -> "BAD")
+
+(* qrpen <rows> : the four penalty rule values and their sum for a square matrix *)
+let () = register "qrpen" (fun args ->
+  match args with
+  | [rows] ->
+    let rows = rows_of_string rows in
+    let n = List.length rows in
+    if List.exists (fun r -> List.length r <> n) rows then "BADSHAPE" else begin
+      let (((r1, r2), r3), r4) = penalty_rules rows in
+      Printf.sprintf "%d %d %d %d %d" (iz r1) (iz r2) (iz r3) (iz r4) (iz (penalty_rows rows))
+    end
+  | _ -> "BAD")
